@@ -74,9 +74,51 @@ def install_contracts():
     jsonpath.JSONPatch.apply = wrapped
 
 
+def run_big_texts(ctx):
+    """The same patch (document, builder and dict form) applied again and again to ONE JSON text document - the same str
+    object, and an equal one built separately - of 100 characters to over a megabyte (sizes on either side of 4 KiB,
+    64 KiB, 1 MiB): a text is immutable, so every application starts from the document the text spells, and results
+    are equal, independent of each other and of the patch."""
+    import jsonpath
+
+    ops = [{"op": "add", "path": "/log/-", "value": {"seen": []}}, {"op": "addap", "path": "/log/99", "value": "appended"}, {"op": "addne", "path": "/meta", "value": {"n": 1}}, {"op": "copy", "from": "/rows/0", "path": "/first"}, {"op": "remove", "path": "/rows/0"},
+           {"op": "add", "path": "/log/0/seen/-", "value": "x"}, {"op": "test", "path": "/rows/0/id", "value": 1}]
+    for n_rows in (2, 55, 56, 880, 886, 887, 895, 14180, 14200):
+        doc = {"log": [], "rows": [{"id": i, "pad": "p" * 50} for i in range(n_rows)]}
+        text = json.dumps(doc)
+        twin_text = json.dumps(copy.deepcopy(doc))
+        want = rp.apply_patch(copy.deepcopy(doc), copy.deepcopy(ops))
+        forms = {"document form": jsonpath.JSONPatch(json.dumps(ops)), "dict form": jsonpath.JSONPatch(copy.deepcopy(ops)), "builder": build_chain(copy.deepcopy(ops), jsonpath)}
+        results = []
+        for rep in range(3):
+            for fname, patch in forms.items():
+                for t in (text, twin_text, io.StringIO(text)):
+                    o = impl.call(patch.apply, t)
+                    ctx.evaluation()
+                    ctx.count("applications_to_one_json_text_document")
+                    if not o.ok or not strict_eq(o.value, want):
+                        got = o.desc() if not o.ok else "log has %d entries (model %d), rows %d (model %d), first=%s" % (len(o.value.get("log", [])), len(want["log"]), len(o.value.get("rows", [])), len(want["rows"]), canon(o.value.get("first"))[:60])
+                        ctx.violation("repeated-application-to-one-json-text-document-differs-from-the-first", {"kind": "big-texts"}, {"text_length": len(text), "form": fname, "application": rep + 1, "got": got})
+                        return
+                    if any(o.value is r_ for r_ in results):
+                        ctx.violation("applications-to-a-json-text-document-return-one-and-the-same-object", {"kind": "big-texts"}, {"text_length": len(text), "form": fname})
+                        return
+                    results.append(o.value)
+            o2 = impl.call(jsonpath.patch.apply, copy.deepcopy(ops), text)
+            if not o2.ok or not strict_eq(o2.value, want):
+                ctx.violation("repeated-application-to-one-json-text-document-differs-from-the-first", {"kind": "big-texts"}, {"text_length": len(text), "form": "patch.apply()", "application": rep + 1})
+                return
+        results[0]["log"].append("scribbled by the caller")
+        if not strict_eq(results[-1], want):
+            ctx.violation("results-for-a-json-text-document-share-state", {"kind": "big-texts"}, {"text_length": len(text)})
+            return
+        ctx.cell("json_text_document_sizes", "%d characters" % len(text))
+        ctx.case(h("big-texts", n_rows), True)
+
+
 def plan(tier, seed):
     n = 14 if tier == "quick" else 46
-    return [{"kind": "flags"}, {"kind": "deep-values"}] + [{"kind": "threads", "rounds": 25 if tier == "quick" else 150} for _ in range(2 if tier == "quick" else 6)] + [{"n": 3000 if tier == "quick" else 30000} for _ in range(n)]
+    return [{"kind": "flags"}, {"kind": "deep-values"}, {"kind": "big-texts"}] + [{"kind": "threads", "rounds": 25 if tier == "quick" else 150} for _ in range(2 if tier == "quick" else 6)] + [{"n": 3000 if tier == "quick" else 30000} for _ in range(n)]
 
 
 def build_chain(ops, jsonpath, pointer_objects=False):
@@ -506,6 +548,9 @@ def run(spec, ctx):
     if spec.get("kind") == "threads":
         run_threads(ctx, spec["rounds"])
         return
+    if spec.get("kind") == "big-texts":
+        run_big_texts(ctx)
+        return
     if spec.get("kind") == "deep-values":
         run_deep_values(ctx)
         run_tuple_values(ctx)
@@ -547,6 +592,9 @@ def replay(case, ctx):
         return
     if case.get("kind") == "deep-values":
         run_deep_values(ctx)
+        return
+    if case.get("kind") == "big-texts":
+        run_big_texts(ctx)
         return
     if case.get("kind") == "tuple-values":
         run_tuple_values(ctx)
